@@ -190,12 +190,25 @@ POINTS = np.array([[0.0, 0.0, 0.0], [0.0, 0.0, 1.4], [1.1, -0.7, 0.3], [0.0, 0.3
                    [5.0, 5.0, 5.0], [0.0, 0.0, 1.4 + 5e-13], [100.0, 0.0, 0.0]])
 
 
+FAR = np.array([1234.5, -4567.8, 7891.2])
+TIGHT = np.array([1e4, 1e6, 3.0])
+NEAR = np.array([[1e-2, 0.0, 0.0], [0.0, -1e-3, 1e-3], [3e-3, 2e-3, -1e-3]])
+
+
 def multi_centre(ctx):
+    _multi(ctx, POINTS, CENTRES, ALPH, PC, PAL, "near-origin")
+    # the same molecule far from the coordinate origin, tight exponents, points very close to the
+    # centres (added after seeded change C17-B was missed): distances must not lose digits
+    pts = np.vstack([POINTS + FAR, CENTRES + FAR + NEAR, PC + FAR + NEAR[:2]])
+    _multi(ctx, pts, CENTRES + FAR, TIGHT, PC + FAR, np.array([1e5, 2e3]), "far-from-origin")
+
+
+def _multi(ctx, POINTS, CENTRES, ALPH, PC, PAL, label):
     from grid.coulomb import coulomb_gaussian_p, coulomb_gaussian_s, coulomb_potential
 
     for ks, kp, normalized in itertools.product(range(4), range(3), (True, False)):
         ctx.count(section="multi")
-        case = {"route": "multi", "ks": ks, "kp": kp, "normalized": normalized}
+        case = {"route": "multi", "ks": ks, "kp": kp, "normalized": normalized, "placement": label}
         cs, co, al = CENTRES[:ks].reshape(ks, 3), COEFFS[:ks], ALPH[:ks]
         kw = {}
         if kp:
@@ -212,14 +225,16 @@ def multi_centre(ctx):
             ref += c * coulomb_gaussian_s(np.linalg.norm(POINTS - ctr, axis=1), a, normalized=normalized)
         for c, a, ctr in zip(PCO[:kp], PAL[:kp], PC[:kp]):
             ref += c * coulomb_gaussian_p(np.linalg.norm(POINTS - ctr, axis=1), a, normalized=normalized)
-        ctx.nontrivial(("multi", ks, kp, normalized), section="multi")
+        ctx.nontrivial(("multi", label, ks, kp, normalized), section="multi")
         scale = np.abs(ref) + 1e-12 * (np.sum(np.abs(co)) + np.sum(np.abs(PCO[:kp])) + 1)
         if got.shape != (len(POINTS),) or np.any(np.abs(got - ref) > 1e-13 * scale * 10):
-            ctx.violation("coulomb_potential:not-the-weighted-sum",
-                          f"coulomb_potential(K_s={ks}, K_p={kp}, normalized={normalized}) differs from the "
+            ctx.violation(f"coulomb_potential:not-the-weighted-sum:{label}",
+                          f"coulomb_potential(K_s={ks}, K_p={kp}, normalized={normalized}, {label}) differs from the "
                           f"coefficient-weighted sum of the single-centre functions: {got} vs {ref}", case)
         if not all(np.array_equal(a, b) for a, b in zip(snap, (POINTS, cs, co, al))):
             ctx.violation("coulomb_potential:argument-modified", "an input array was modified", case)
+    if label != "near-origin":
+        return
     # partially given p arguments are rejected
     for kwargs in (dict(centers_p=PC), dict(coeffs_p=PCO), dict(alphas_p=PAL), dict(centers_p=PC, coeffs_p=PCO),
                    dict(coeffs_p=PCO, alphas_p=PAL)):
